@@ -58,8 +58,9 @@ def sortable_proxy(
 
     for idx in numpoly.glexsort(poly.exponents.T, graded=graded, reverse=reverse):
         indices = numpy.all(largest == poly.exponents[idx], axis=-1)
-        values = numpy.argsort(coefficients[idx][indices])
+        values = numpy.argsort(coefficients[idx][indices], kind="stable")
         proxy[indices] = numpy.argsort(values) + numpy.max(proxy) + 1
 
-    proxy = numpy.argsort(numpy.argsort(proxy.ravel())).reshape(proxy.shape)
+    proxy = numpy.argsort(numpy.argsort(proxy.ravel(), kind="stable"))
+    proxy = proxy.reshape(poly.shape)
     return proxy
